@@ -113,6 +113,8 @@ def run_case(c, module=None):
     classes = mk_classes(world, module)
     ctxs = [xo.ContextCpu(), xo.ContextCpu()]
     bufs = {"B0": ctxs[0].new_buffer(c.get("cap", 4096)), "B1": ctxs[0].new_buffer(c.get("cap", 4096)), "B2": ctxs[1].new_buffer(c.get("cap", 4096))}
+    for b in bufs.values():      # free space that was used before: nothing may rely on fresh storage being zero
+        b.update_from_buffer(0, bytes([0x5A]) * int(b.capacity))
     bufname = lambda b: [k for k, v in bufs.items() if v is b][0] if any(v is b for v in bufs.values()) else "other"
     objs = {}
     res = {"steps": []}
@@ -177,11 +179,26 @@ def run_case(c, module=None):
             elif o == "pickle":
                 group = [objs[n] for n in op["names"]]
                 if op.get("raw"):          # the plain xobject structs, not their dressing
-                    data = pickle.dumps([g._xobject for g in group])
+                    data = pickle.dumps([g._xobject for g in group], **({} if op.get("protocol") is None else {"protocol": op["protocol"]}))
                     back = [type(g)(_xobject=x) for g, x in zip(group, pickle.loads(data))]
                 else:
-                    data = pickle.dumps(group)
-                    back = pickle.loads(data)
+                    # the dressed nested parts of the objects are pickled in the same call, after their containers
+                    parts = []
+                    if op.get("with_parts"):
+                        for gi, g in enumerate(group):
+                            spec = world["classes"][type(g).__name__] if type(g).__name__ in world["classes"] else None
+                            for cn, sp in world["classes"].items():
+                                if classes[cn] is type(g): spec = sp
+                            for f in (spec or {"fields": []})["fields"]:
+                                if f[1] == "nested":
+                                    parts.append((gi, pyname(spec, f[0]), getattr(g, pyname(spec, f[0]))))
+                    data = pickle.dumps(group + [p_[2] for p_ in parts], **({} if op.get("protocol") is None else {"protocol": op["protocol"]}))
+                    allback = pickle.loads(data)
+                    back = allback[:len(group)]
+                    st["parts_in_place"] = []
+                    for (gi, pn, _), pb in zip(parts, allback[len(group):]):
+                        cont = back[gi]; here = getattr(cont, pn)
+                        st["parts_in_place"].append([op["names"][gi], pn, bool(pb._buffer is cont._buffer), int(pb._offset) == int(here._offset)])
                 for n, b in zip(op["new_names"], back):
                     objs[n] = b
                 st["same_buffer"] = [[back[i]._buffer is back[j]._buffer for j in range(len(back))] for i in range(len(back))]
